@@ -28,7 +28,8 @@ LEVEL_NOTE = ('Trusted: mc/gf2.py. Representations enumerated: list, ndarray of 
 RULE = ('pairs: every (a, b) in P_n x P_n for n in 1..3 for every ordered pair of 19 representations; stacks: all '
         '16^2 x 16^2 two-row stacks on n=2 (dense, sparse); overlap: every w in 0..N for N in the boundary list, 5 '
         'patterns x 4 representation mixes; syndrome: all 4^n errors for library codes with n<=8; converters: all '
-        '4^n strings n<=4. non-trivial = distinct (input, representation) tuples with a non-identity operand')
+        '4^n strings n<=4; bsparse: every BSF row on n<=3 qubits (canonical and unsorted csr, alone and inside a '
+        'stack) through hsplit/hstack/vstack/dot/is_one/equal. non-trivial = distinct (input, representation) tuples with a non-identity operand')
 ASSUMPTIONS = ['GF(2) reference mc/gf2.py']
 BOUNDS = {'quick': {'n_pairs': 3, 'overlap_N': [255, 256, 257, 511, 512, 513, 600], 'syndrome_max_n': 6,
                     'conv_n': 4},
@@ -83,6 +84,8 @@ def cases(tier, seed):
     out.append({'part': 'rank'})
     for n in (1, 2):
         out.append({'part': 'inplace', 'n': n})
+    for n in (1, 2, 3):
+        out.append({'part': 'bsparse', 'n': n})
     return out
 
 
@@ -433,6 +436,79 @@ def eval_inplace(case):
     return res
 
 
+def eval_bsparse(case):
+    """The sparse-row helpers (panqec.bsparse) the sparse representation is handled with: splitting a row
+    into its X and Z halves, joining the halves, stacking, row dot product, membership and equality - on
+    every BSF row with n qubits, stored canonically and with unsorted indices, alone and inside a stack."""
+    from panqec import bsparse
+    n = case['n']
+    N = 4 ** n
+    res = {'evals': 0, 'nontrivial': 0, 'violations': [], 'outcomes': [], 'samples': [], 'extra': {}}
+    counts = {}
+
+    def bad(kind, **detail):
+        counts[kind] = counts.get(kind, 0) + 1
+        if counts[kind] == 1 and len(res['violations']) < 6:
+            res['violations'].append({'key': {'part': 'bsparse', 'kind': kind, 'n': n}, 'detail': detail})
+
+    def dense(m):
+        return np.asarray(bsparse.to_array(m)).astype(int).tolist()
+
+    for a in range(N):
+        bits = gf2.int_to_vec(a, 2 * n)
+        for kind in ('csr', 'csr/unsorted'):
+            row = rep(a, n, kind)
+            res['evals'] += 1
+            x, z = bsparse.hsplit(row)
+            if x.shape != (1, n) or z.shape != (1, n) or dense(x) != [bits[:n]] or dense(z) != [bits[n:]]:
+                bad('hsplit-of-a-row-is-not-its-X-and-Z-halves', row=gf2.int_to_pauli_string(a, n), stored=kind,
+                    x_half=dense(x), z_half=dense(z), expected=[bits[:n], bits[n:]])
+            if dense(bsparse.hstack([x, z])) != [bits]:
+                bad('hstack-of-hsplit-is-not-the-row', row=gf2.int_to_pauli_string(a, n), stored=kind)
+            if dense(bsparse.from_array(bits)) != [bits] or dense(bsparse.from_array(np.array([bits]))) != [bits]:
+                bad('from_array-to_array-round-trip', row=bits)
+            for idx in range(2 * n):
+                if bool(bsparse.is_one(idx, row)) != bool(bits[idx]):
+                    bad('is_one-wrong', row=gf2.int_to_pauli_string(a, n), stored=kind, index=idx)
+            # the same row inside a stack must split into the same halves
+            for b in (0, N - 1, (a * 7 + 3) % N):
+                st = bsparse.vstack([row, rep(b, n, 'csr')])
+                sx, sz = bsparse.hsplit(st)
+                bb = gf2.int_to_vec(b, 2 * n)
+                res['evals'] += 1
+                if dense(st) != [bits, bb]:
+                    bad('vstack-wrong', rows=[bits, bb])
+                elif dense(sx) != [bits[:n], bb[:n]] or dense(sz) != [bits[n:], bb[n:]]:
+                    bad('hsplit-of-a-stack-is-not-its-X-and-Z-halves', rows=[bits, bb])
+                elif dense(sx)[0] != dense(x)[0] or dense(sz)[0] != dense(z)[0]:
+                    bad('row-splits-differently-alone-and-inside-a-stack', row=gf2.int_to_pauli_string(a, n))
+        if n <= 2:
+            for b in range(N):
+                bb = gf2.int_to_vec(b, 2 * n)
+                want = sum(p & q for p, q in zip(bits, bb)) % 2
+                res['evals'] += 1
+                for A, B in ((rep(a, n, 'csr'), rep(b, n, 'csr')), (rep(a, n, 'csr/unsorted'), np.array([bb], dtype='uint8')),
+                             (np.array([bits], dtype='uint8'), rep(b, n, 'csr'))):
+                    if bsparse.dot(A, B) != want:
+                        bad('row-dot-product-wrong', a=bits, b=bb, expected=want)
+                if bool(bsparse.equal(rep(a, n, 'csr'), rep(b, n, 'csr/unsorted'))) != (a == b):
+                    bad('equal-wrong', a=bits, b=bb)
+    z = bsparse.zero_row(2 * n)
+    if z.shape != (1, 2 * n) or z.nnz != 0 or not bsparse.equal(z, 0) or not bsparse.is_sparse(z):
+        bad('zero_row-wrong')
+    zm = bsparse.zero_matrix((3, 2 * n))
+    if zm.shape != (3, 2 * n) or zm.nnz != 0:
+        bad('zero_matrix-wrong')
+    if not bsparse.is_empty(bsparse.empty_row(2 * n)) or bsparse.is_empty(z):
+        bad('is_empty-wrong')
+    res['nontrivial'] = res['evals']
+    res['extra'].update({'bsparse_' + k.replace('-', '_'): v for k, v in counts.items()})
+    res['outcomes'] = ['bsparse|%d|%s' % (n, ','.join(sorted(counts)) or 'ok')]
+    res['samples'].append({'row': 'ZI' if n == 2 else 'Z' * n, 'stored': 'csr', 'helpers': ['hsplit', 'hstack', 'vstack', 'dot',
+                                                                                       'is_one', 'equal']})
+    return res
+
+
 def eval_rank(case):
     from panqec.bpauli import brank
     res = {'evals': 0, 'nontrivial': 0, 'violations': [], 'outcomes': [], 'samples': [], 'extra': {}}
@@ -459,4 +535,4 @@ def eval_rank(case):
 
 def eval_case(case):
     return {'pairs': eval_pairs, 'stacks': eval_stacks, 'overlap': eval_overlap, 'syndrome': eval_syndrome,
-            'converters': eval_converters, 'rank': eval_rank, 'inplace': eval_inplace}[case['part']](case)
+            'converters': eval_converters, 'rank': eval_rank, 'inplace': eval_inplace, 'bsparse': eval_bsparse}[case['part']](case)
